@@ -50,8 +50,11 @@ What is proved
     against `sem` over immutable child sequences): all clauses above are about the function the evaluator computes.
     Lemma `remove-genes/kept-rule-is-old-rule-with-genes-absent`: the contract of _GeneRemover.visit for the body, lifted to the GPR
     object whose body remove_genes replaces.
-NOT attempted: GPRCleaner.visit_Name (rewrites identifiers: string level), from_symbolic._sympy_to_ast (allocates nodes
-under a list comprehension), the content of deepcopy (GPR.copy / __copy__ are a proved pass-through of an assumed deepcopy: last
+(5) `GPR.from_symbolic._sympy_to_ast` (hook table HOOKS_S2A): sympy expression of the Symbol / Or / And fragment -> a well-formed
+    tree with the same Boolean value (assumed accessors; functional allocation, see that section).  `GPR.copy` / `__copy__`.
+    Termination: the directly recursive functions carry a variant (section `termination`).
+NOT attempted: GPRCleaner.visit_Name (rewrites identifiers: string level), from_symbolic itself (GPR(), GPR.__init__ with its
+deepcopy of the cleaned tree), the content of deepcopy (GPR.copy / __copy__ are a proved pass-through of an assumed deepcopy: last
 section), the root case of _GeneRemover.visit (generic_visit deletes the `body`
 attribute of the GPR object; remove_genes then sets it to None).
 
@@ -92,6 +95,8 @@ Mutation trials (tools/mutate_and_run.sh; every mutant left the named obligation
   gene.py    as_symbolic: table {} instead of None; self.body instead of self           call:GPR._symbolic_gpr/pre
   gene.py    _eval_gpr: `not in` -> `in`; any -> all; eval: knockouts=set()                   post of the case (heap contracts)
   gene.py    copy: deepcopy(self) -> self; __copy__: self.copy() -> self                       post.2 (a different object)
+  gene.py    _sympy_to_ast: `is spl.Or` -> `is spl.And`; op=Or() -> And(); Name(id="x"); `not args` negated     post.4 / unexpected-exception
+  gene.py    recursion on the SAME node / expression (_sympy_to_ast, _symbolic_gpr, _eval_gpr)     call:<itself>/pre (variant)
   gene.py    visit_BinOp: TUPLE (node.left, node.right) (the historical defect)         call:BoolOp.__init__/pre
   gene.py    visit_BinOp: And() -> Or(); operands swapped; BitAnd test -> BitOr; raise -> return node; [node.left] only
                                                                                         post.7 / post.9-11 / expected-TypeError / post.8
@@ -186,6 +191,36 @@ def tree_axioms_arr(tg, nid, op, at=None):
                   patterns=[z3.MultiPattern(below(VN, VS, BD, kid(i), y), below(VN, VS, BD, x, y))]),
         z3.ForAll([K, K2, k], union(K, K2)[k] == z3.Or(K[k], K2[k]), patterns=[union(K, K2)[k]]),
     ]
+
+
+# ---------------------------------------------------------------- termination of the directly recursive functions
+# `recursive calls are replaced by the function's own contract` is structural induction only if the argument of the recursive call
+# is SMALLER.  Rule trees are finite (trusted): there is a height function that decreases from a node to its children / body
+# (assumed axioms below); sympy expressions likewise (sym_size).  Every directly recursive function of this module states the
+# variant as an extra conjunct of its precondition AT RECURSIVE CALL SITES: measure(argument) < measure(argument of the running
+# activation).  (Without it a mutant recursing on the SAME node verifies - partial correctness.)
+tree_height = z3.Function("tree_height", RefInt, RefSeq, RefRef, Ref, z3.IntSort())
+
+
+def height_axioms(E, st):
+    tg = H(E, st, "ast_tag")
+    VN, VS, BD = z3.Const("hVN", RefInt), z3.Const("hVS", RefSeq), z3.Const("hBD", RefRef)
+    x, i = z3.Const("hx", Ref), z3.Int("hi")
+    ht = lambda y: tree_height(VN, VS, BD, y)  # noqa
+    return [z3.ForAll([VN, VS, BD, x, i], z3.Implies(z3.And(x != NULL, wfh(VN, VS, BD, x), tg[x] == T_BOOLOP, 0 <= i, i < VN[x]),
+                                                     ht(VS[x][i]) < ht(x)), patterns=[z3.MultiPattern(ht(VS[x][i]), ht(x))]),
+            z3.ForAll([VN, VS, BD, x], z3.Implies(z3.And(x != NULL, wfh(VN, VS, BD, x), z3.Or(tg[x] == T_EXPRESSION, tg[x] == T_GPR),
+                                                         BD[x] != NULL), ht(BD[x]) < ht(x)), patterns=[z3.MultiPattern(ht(BD[x]), ht(x))])]
+
+
+def decreases(E, key, arg, measure):
+    """variant conjunct of a precondition: True when the function is entered from outside / when its body is verified; at a
+    recursive call site (the engine is verifying the contract `key` itself): measure(new argument) < measure(entry argument)"""
+    ea = getattr(E.eng, "entry_args", None)
+    cur = getattr(E.eng, "cur_contract", None)
+    if not ea or cur is None or cur.key != key or arg not in ea:
+        return z3.BoolVal(True)
+    return measure(E[arg]) < measure(ea[arg])
 
 
 # ---------------------------------------------------------------- hooks
@@ -751,7 +786,9 @@ def _sy_dict_ok(E):
 
 
 def _sy_pre(E):
-    return z3.And(wfh(*heap3(E, E.s0), E["expr"].t), _sy_dict_ok(E))
+    h = heap3(E, E.s0)
+    return z3.And(wfh(*h, E["expr"].t), _sy_dict_ok(E),
+                  decreases(E, "GPR._symbolic_gpr", "expr", lambda v: tree_height(*h, v.t)))
 
 
 def sym_spec(E, h, x, r):
@@ -771,7 +808,7 @@ def _sy_result(eng, st, E):
 
 
 def _sy_axioms(E):
-    return _wk_axioms(E) + sympy_axioms()
+    return _wk_axioms(E) + sympy_axioms() + height_axioms(E, E.s0)
 
 
 def _sy_cases():
@@ -995,7 +1032,9 @@ def _evh_cases():
 
 
 _evh = REG.add(Contract(MG, "GPR._eval_gpr", "C08", [("self", TRef("GPR")), C7.NODE, C7.KO], _evh_cases(),
-                        pre=lambda E: wfh(*heap3(E, E.s0), E["expr"].t), axioms=lambda E: tree_axioms(E, E.s0),
+                        pre=lambda E: z3.And(wfh(*heap3(E, E.s0), E["expr"].t),
+                                             decreases(E, "GPR._eval_gpr/heap", "expr", lambda v: tree_height(*heap3(E, E.s0), v.t))),
+                        axioms=lambda E: tree_axioms(E, E.s0) + height_axioms(E, E.s0),
                         key="GPR._eval_gpr/heap", result=lambda eng, st, E: (st, VBool(_evh_term(Env(E.a, st, eng=eng), st)))))
 _evh.call_cases = [Case("any")]          # the result term itself is semh(h, expr, K)
 
@@ -1064,3 +1103,130 @@ HOOKS = HOOKS_CP
 for _q in ("GPR.copy", "GPR.__copy__"):
     REG.add(Contract(MG, _q, "C08", [("self", TRef("GPR"))], [Case("any", ensures=lambda E: copy_spec(E, E.s1, E["self"].t, E.res.t))],
                      pre=_gpr_pre, axioms=_wk_axioms, key=_q, result=lambda eng, st, E: (st, VRef(fresh("copy_res", Ref), "GPR"))))
+
+
+# ================================================================ GPR.from_symbolic._sympy_to_ast: sympy -> rule tree (a homomorphism)
+# The nested recursive function of from_symbolic.  sympy side (ASSUMED accessors, inverse to the constructors above): an
+# expression e of the GPR fragment (predicate sym_gpr_expr, unfolding below) is an Or / an And with >= 1 arguments which are again
+# of the fragment, or has no arguments and then is a Symbol with a name; its meaning is that of its arguments / its name.
+# AST side: allocation is modelled FUNCTIONALLY here - `Name(id=..)`, `Or()`, `And()` and `BoolOp(op=.., values=[..])` return a node
+# that carries the content given to the constructor, and no heap field is written (an unused object with the wanted content is
+# chosen).  This is adequate for a function that only BUILDS a tree and never writes to an existing node (no aliasing question can
+# arise); it is NOT the allocation contract used for GPRCleaner.visit_BinOp above, and it is listed as assumed.
+# Proved: for e of the fragment the result is a well-formed Name / BoolOp tree r with semh(h, r, K) == sympy_sem(e, K) (K = vis_K).
+sym_is_or = z3.Function("sympy.func_is_Or", NP, z3.BoolSort())
+sym_is_and = z3.Function("sympy.func_is_And", NP, z3.BoolSort())
+sym_nargs = z3.Function("sympy.nargs", NP, z3.IntSort())
+sym_arg = z3.Function("sympy.arg", NP, z3.IntSort(), NP)
+sym_name = z3.Function("sympy.name", NP, Id)
+sym_gpr_expr = z3.Function("sym_gpr_expr", NP, z3.BoolSort())
+sym_size = z3.Function("sympy.size", NP, z3.IntSort())
+ast_of = z3.Function("sympy_to_ast_of", NP, Ref)        # the node _sympy_to_ast returns for an expression (call sites)
+
+
+def sympy_accessor_axioms():
+    e, K, i = z3.Const("ze", NP), z3.Const("zK", IdSet), z3.Int("zi")
+    n, arg = sym_nargs(e), (lambda j: sym_arg(e, j))
+    inner = z3.Or(sym_is_or(e), sym_is_and(e))
+    return [
+        z3.ForAll([e], z3.Implies(sym_gpr_expr(e), z3.And(
+            z3.Not(z3.And(sym_is_or(e), sym_is_and(e))), n >= 0,
+            z3.Implies(inner, z3.And(n >= 1, z3.ForAll([i], z3.Implies(z3.And(0 <= i, i < n), sym_gpr_expr(arg(i))), patterns=[arg(i)]))),
+            z3.Implies(z3.Not(inner), n == 0))), patterns=[sym_gpr_expr(e)]),
+        z3.ForAll([e, K], z3.Implies(z3.And(sym_gpr_expr(e), sym_is_or(e)),
+                                     symsem(e, K) == z3.Exists([i], z3.And(0 <= i, i < n, symsem(arg(i), K)))), patterns=[symsem(e, K)]),
+        z3.ForAll([e, K], z3.Implies(z3.And(sym_gpr_expr(e), sym_is_and(e)),
+                                     symsem(e, K) == z3.ForAll([i], z3.Implies(z3.And(0 <= i, i < n), symsem(arg(i), K)))), patterns=[symsem(e, K)]),
+        z3.ForAll([e, K], z3.Implies(z3.And(sym_gpr_expr(e), z3.Not(inner)), symsem(e, K) == z3.Not(K[sym_name(e)])), patterns=[symsem(e, K)]),
+        # expressions are finite: an argument is smaller than the expression
+        z3.ForAll([e, i], z3.Implies(z3.And(sym_gpr_expr(e), 0 <= i, i < n), sym_size(arg(i)) < sym_size(e)),
+                  patterns=[z3.MultiPattern(sym_size(arg(i)), sym_size(e))]),
+    ]
+
+
+def s2a_getattr_hook(eng, st, v, name):
+    if isinstance(v, VNp) and name == "func":
+        return [("ok", st, VFunc("symfunc", v))]
+    if isinstance(v, VNp) and name == "args":
+        e = v.t
+        return [("ok", st, VSeq(sym_nargs(e), lambda s, i: VNp(sym_arg(e, i)), tag="sympy_args"))]
+    if isinstance(v, VNp) and name == "name":
+        return [("ok", st, VStr(sym_name(v.t)))]
+    return None
+
+
+def s2a_compare_hook(eng, st, op, a, b):
+    import ast as _ast
+    if isinstance(op, (_ast.Is, _ast.IsNot)) and isinstance(a, VFunc) and a.kind == "symfunc" and isinstance(b, VFunc) and b.kind == "abstract" \
+            and b.a in ("spl.Or", "spl.And"):
+        c = (sym_is_or if b.a == "spl.Or" else sym_is_and)(a.a.t)
+        return [("ok", st, VBool(z3.Not(c) if isinstance(op, _ast.IsNot) else c))]
+    return None
+
+
+def s2a_truth_hook(eng, st, v):
+    if isinstance(v, VSeq) and v.tag == "sympy_args":
+        return v.n != 0
+    return None
+
+
+def s2a_global_hook(eng, name):
+    if name in ("BoolOp", "Name"):
+        return VFunc("abstract", "new:" + name)
+    return None
+
+
+s2a_touch = z3.Function("s2a_touch", Ref, NP, z3.BoolSort())
+
+
+def s2a_call_abstract_hook(eng, st, f, pos, kw):
+    if f.a == "_sympy_to_ast":
+        return eng.apply_contract(st, eng.reg.get("GPR.from_symbolic._sympy_to_ast"), pos, kw)      # recursion: its own contract
+    tg = eng.heap_arr(st, "ast_tag")
+    if f.a == "new:Name" and not pos and set(kw) == {"id"}:
+        z = fresh("new_name", Ref)
+        return [("ok", st.assume(z != NULL, tg[z] == T_NAME, eng.heap_arr(st, "id")[z] == unwrap(kw["id"], "id")), VRef(z, "AstNode"))]
+    if f.a == "new:BoolOp" and not pos and set(kw) == {"op", "values"}:
+        vals = kw["values"]
+        if not (isinstance(vals, VObj) and vals.kind == "list" and st.objs[vals.oid].get("ekind", "").startswith("ref")):
+            raise Unsupported("BoolOp(values=...) with something that is not a list of nodes")
+        rec = st.objs[vals.oid]
+        z = fresh("new_boolop", Ref)
+        j = qv("nj")
+        VN, VS = eng.heap_arr(st, "values_n"), eng.heap_arr(st, "values_seq")
+        he, hi = z3.Const(fresh_name("he"), NP), qv("hi")
+        return [("ok", st.assume(z != NULL, tg[z] == T_BOOLOP, eng.heap_arr(st, "op")[z] == kw["op"].t, VN[z] == rec["len"],
+                                 FA([j], z3.Implies(z3.And(0 <= j, j < rec["len"]), VS[z][j] == rec["elem"][j]),
+                                    patterns=[VS[z][j], rec["elem"][j]]),
+                                 # instantiation hint only (satisfied by s2a_touch = True): look at the i-th element of the list
+                                 # whenever the i-th argument of some expression is looked at
+                                 FA([he, hi], s2a_touch(rec["elem"][hi], sym_arg(he, hi)), patterns=[sym_arg(he, hi)])),
+                 VRef(z, "AstNode"))]
+    return None
+
+
+HOOKS_S2A = chain_hooks({"getattr": s2a_getattr_hook, "compare": s2a_compare_hook, "truth": s2a_truth_hook, "global": s2a_global_hook},
+                        HOOKS_CP)
+HOOKS_S2A["call_abstract"] = _chain_abstract(s2a_call_abstract_hook, copy_call_abstract_hook, sym_call_abstract_hook, call_abstract_hook)
+
+
+def _s2a_spec(E, st, e, r):
+    h, tg = heap3(E, st), H(E, st, "ast_tag")
+    return z3.And(r != NULL, wfh(*h, r), is_expr_tag(tg, r), semh(*h, r, VIS_K) == symsem(e, VIS_K))
+
+
+def _s2a_self(st, name):
+    return st, VFunc("abstract", "_sympy_to_ast")
+
+
+_s2a = REG.add(Contract(MG, "GPR.from_symbolic._sympy_to_ast", "C08", [("sympy_expr", npalg.TNp())],
+                        [Case("Or", requires=lambda E: sym_is_or(E["sympy_expr"].t), ensures=lambda E: _s2a_spec(E, E.s1, E["sympy_expr"].t, E.res.t)),
+                         Case("And", requires=lambda E: sym_is_and(E["sympy_expr"].t), ensures=lambda E: _s2a_spec(E, E.s1, E["sympy_expr"].t, E.res.t)),
+                         Case("Symbol", requires=lambda E: z3.Not(z3.Or(sym_is_or(E["sympy_expr"].t), sym_is_and(E["sympy_expr"].t))),
+                              ensures=lambda E: _s2a_spec(E, E.s1, E["sympy_expr"].t, E.res.t))],
+                        pre=lambda E: z3.And(sym_gpr_expr(E["sympy_expr"].t),
+                                             decreases(E, "GPR.from_symbolic._sympy_to_ast", "sympy_expr", lambda v: sym_size(v.t))),
+                        axioms=lambda E: _sy_axioms(E) + sympy_accessor_axioms(),
+                        closure=[("_sympy_to_ast", TCustom(_s2a_self))], key="GPR.from_symbolic._sympy_to_ast",
+                        result=lambda eng, st, E: (st, VRef(ast_of(E["sympy_expr"].t), "AstNode"))))
+_s2a.call_cases = [Case("any", ensures=lambda E: _s2a_spec(E, E.s1, E["sympy_expr"].t, E.res.t))]
